@@ -28,8 +28,8 @@ mcPrefixPairs == {<<"x", "">>, <<"x", "x">>}
 mcTickDs == {1, 2, 3, 5, 13}
 mcProjOfName == <<>>
 mcOps == {"Publish", "Pull", "Ack", "ModAck", "Nack", "DLSweep", "Tick", "DeleteTopic", "CreateSub",
-          "DeleteSub", "CreateTopic", "SeekTime", "StreamAN"}
+          "DeleteSub", "CreateTopic", "SeekTime", "StreamAN", "AckNack"}
 W0 == [op \in mcOps |-> 1]
-mcWeights == [W0 EXCEPT !["Publish"] = 5, !["Pull"] = 14, !["Ack"] = 2, !["ModAck"] = 3, !["Nack"] = 6, !["StreamAN"] = 4,
+mcWeights == [W0 EXCEPT !["Publish"] = 5, !["Pull"] = 14, !["Ack"] = 2, !["ModAck"] = 3, !["Nack"] = 6, !["StreamAN"] = 4, !["AckNack"] = 4,
                         !["Tick"] = 8, !["DLSweep"] = 5, !["CreateSub"] = 2]
 =============================================================================
